@@ -817,27 +817,35 @@ class TrueTypeFont:
                     Tuple[int, ...],
                     struct.unpack(">256H", fp.read(512)),
                 )
-                firstbytes = [0] * 8192
-                for i, k in enumerate(subheaderkeys):
-                    firstbytes[k // 8] = i
                 nhdrs = max(subheaderkeys) // 8 + 1
-                hdrs: List[Tuple[int, int, int, int, int]] = []
+                hdrs: List[Tuple[int, int, int, int]] = []
                 for i in range(nhdrs):
                     (firstcode, entcount, delta, offset) = cast(
                         Tuple[int, int, int, int],
                         struct.unpack(">HHhH", fp.read(8)),
                     )
-                    hdrs.append((i, firstcode, entcount, delta, fp.tell() - 2 + offset))
-                for i, firstcode, entcount, delta, pos in hdrs:
-                    if not entcount:
-                        continue
-                    first = firstcode + (firstbytes[i] << 8)
-                    fp.seek(pos)
-                    for c in range(entcount):
+                    hdrs.append((firstcode, entcount, delta, fp.tell() - 2 + offset))
+                for firstbyte, key in enumerate(subheaderkeys):
+                    (firstcode, entcount, delta, pos) = hdrs[key // 8]
+                    if key == 0:
+                        # firstbyte is a single-byte code, looked up through
+                        # subheader 0.
+                        if not firstcode <= firstbyte < firstcode + entcount:
+                            continue
+                        codes = [(firstbyte, pos + 2 * (firstbyte - firstcode))]
+                    else:
+                        # firstbyte starts two-byte codes; several first bytes
+                        # may share one subheader.
+                        codes = [
+                            ((firstbyte << 8) + firstcode + c, pos + 2 * c)
+                            for c in range(entcount)
+                        ]
+                    for code, at in codes:
+                        fp.seek(at)
                         gid = cast(Tuple[int], struct.unpack(">H", fp.read(2)))[0]
                         if gid:
-                            gid += delta
-                        char2gid[first + c] = gid
+                            gid = (gid + delta) & 0xFFFF
+                        char2gid[code] = gid
             elif fmttype == 4:
                 (segcount, _1, _2, _3) = cast(
                     Tuple[int, int, int, int],
